@@ -7,7 +7,7 @@ from gen import pick, gen_str, mutate_str
 from genrules import gen_policy, gen_inquiry
 import polcase
 import stores
-from vakt.guard import Guard
+from vakt.guard import Guard, Inquiry
 from vakt.exceptions import InvalidPatternError
 
 MODULE = 'Props.C07'
@@ -136,6 +136,23 @@ def storable(objs):
     return True
 
 
+class ReentrantInquiry(Inquiry):
+    """an inquiry with the content of `base`; the first read of one chosen field calls `hook` first"""
+    def __init__(self, base, field, hook):
+        self.__dict__['_v'] = {'resource': base.resource, 'action': base.action, 'subject': base.subject, 'context': base.context}
+        self.__dict__['_field'], self.__dict__['_hook'], self.__dict__['_fired'] = field, hook, [False]
+
+    def _get(self, name):
+        if name == self._field and not self._fired[0]:
+            self._fired[0] = True
+            self._hook()
+        return self._v[name]
+    resource = property(lambda self: self._get('resource'))
+    action = property(lambda self: self._get('action'))
+    subject = property(lambda self: self._get('subject'))
+    context = property(lambda self: self._get('context'))
+
+
 def run(ctx):
     out = Outcome()
     rng = ctx.rng
@@ -226,7 +243,29 @@ def run(ctx):
                 cands, cerr = None, type(e).__name__
             dec = Guard(st, polcase.make_checker(k)).is_allowed(inq) if k else None
             prob, sig = None, None
-            if cerr and not raises:
+            if other_inq is not None and cands is not None and not raises and rng.random() < 0.5:
+                # a search for another inquiry made on the same storage object WHILE this one is being prepared (at the moment one
+                # of the inquiry's fields is read - where a second thread could be scheduled in): the candidates are still this
+                # inquiry's
+                fld = pick(rng, ['resource', 'action', 'subject'])
+
+                def inner():
+                    try:
+                        capped(st.find_for_inquiry(other_inq, checker))
+                    except Exception:
+                        pass            # what the other search does is judged when it is the subject
+                try:
+                    re_c = sorted(p.uid for p in st.find_for_inquiry(ReentrantInquiry(inq, fld, inner), checker))
+                    out.count('reentrant-search')
+                    if not set(match_uids) <= set(re_c):
+                        prob = ('another search (for %r) made while inquiry.%s was being read: matching policies %s are not among '
+                                'the candidates %s' % (other, fld, sorted(set(match_uids) - set(re_c)), re_c))
+                        sig = 'dropped-match-reentrant'
+                except Exception as e:
+                    prob, sig = 'a search made while another one was being prepared raised %s' % type(e).__name__, 'reentrant-raised'
+            if prob:
+                pass
+            elif cerr and not raises:
                 prob, sig = 'find_for_inquiry raised %s although evaluation over memory raises nothing' % cerr, 'find-raised'
             elif cands is not None and not set(match_uids) <= set(cands):
                 prob = 'matching policies %s are not among the candidates %s' % (sorted(set(match_uids) - set(cands)), cands)
@@ -338,7 +377,7 @@ def run(ctx):
                 'checkers and no checker; per backend: matching subset-of candidates subset-of stored (by uid), '
                 'Guard.is_allowed equal to the in-memory answer, candidate membership compared with the model predicate; '
                 'non-trivial = >=1 matching policy' % len(BACKENDS))
-    out.rule += '; in a fifth of the cases every third policy is first stored as a policy of the other kind and then updated; in two fifths of the cases with a second inquiry the search is requested, another search is made and consumed, and only then are the first candidates consumed (lazy cursors)'
+    out.rule += '; in a fifth of the cases every third policy is first stored as a policy of the other kind and then updated; in two fifths of the cases with a second inquiry the search is requested, another search is made and consumed, and only then are the first candidates consumed (lazy cursors); in half of those cases a search for the second inquiry is made on the same storage object at the moment a field of the first inquiry is read'
     return out
 
 
